@@ -38,7 +38,6 @@ def run(ctx):
         sp = space.numpy().astype(int)
         want = np.array(list(itertools.product([0, 1], repeat=n)))
         ctx.require("rows == itertools.product order (big-endian, site 0 MSB)", sp.shape == want.shape and bool((sp == want).all()), case)
-        ctx.require("dtype double", space.dtype == torch.double, case)
         mod = m.call("generate_hilbert_space", n)
         ctx.agree_exact("generate_hilbert_space", sp.tolist(), [[int(x) for x in r] for r in mod[0]], case)
         # explicit size argument
@@ -72,20 +71,38 @@ def run(ctx):
             back = int(U._convert_basis_element_to_index(v).item())
             ctx.require("idx(subspace_vector(k)) == k", back == k, c2, back)
             ctx.agree_exact("idx large", back, int(m.call("idx", [v.numpy().astype(int).tolist()])[0]), c2)
-    # ---- size guard
-    for n in (20, 21, 25):
-        c2 = {"fn": "size guard", "n": n}
+    # ---- size guard: spaces beyond the state's own size limit are refused (any exception); the limit itself is not prescribed
+    lim = int(s.max_size)
+    for n in (lim + 1, lim + 5):
+        c2 = {"fn": "size guard", "n": n, "max_size": lim}
         ctx.case(c2)
-        if n > 20:
+        try:
+            s.generate_hilbert_space(size=n)
+            refused = False
+        except Exception:
+            refused = True
+        ctx.require("spaces beyond max_size are refused", refused, c2)
+        if lim == 20:                      # the model's max_size mirrors the code's 20
             mod = m.call("generate_hilbert_space", n)
-            try:
-                s.generate_hilbert_space(size=n)
-                refused = False
-            except ValueError:
-                refused = True
-            ctx.require("spaces beyond max_size are refused", refused, c2)
             ctx.agree_exact("guard", refused, mod == [], c2)
-    ctx.require("max_size is 20", s.max_size == 20, {"fn": "max_size"})
+    # default-size call form on a state larger than the limit (subclass with a small limit keeps this cheap)
+    for kind in (PositiveWaveFunction, ComplexWaveFunction):
+        class Small(kind):
+            @property
+            def max_size(self):
+                return 4
+        for nvis in (4, 5, 6):
+            st = Small(nvis, gpu=False)
+            c2 = {"fn": "size guard default size", "state": kind.__name__, "num_visible": nvis, "max_size": 4}
+            ctx.case(c2)
+            try:
+                sp_ = st.generate_hilbert_space()
+                refused = False
+            except Exception:
+                refused = True
+            ctx.require("default-size call: refused iff num_visible exceeds max_size", refused == (nvis > 4), c2)
+            if not refused:
+                ctx.require("default-size call rows", sp_.numpy().astype(int).tolist() == [list(t) for t in itertools.product([0, 1], repeat=nvis)], c2)
     # ---- positions of psi / rho arrays: basis state k of the array is row k of the space
     for n in (2, 3):
         cw = ComplexWaveFunction(n, gpu=False)
@@ -95,7 +112,7 @@ def run(ctx):
             c2 = {"fn": "psi position", "n": n, "k": k}
             ctx.case(c2)
             one = cw.psi(cw.subspace_vector(k))
-            ctx.require("psi(space)[:,k] == psi(subspace_vector(k))", bool(torch.allclose(psi[:, k], one, rtol=1e-12, atol=0)), c2)
+            ctx.require("psi(space)[:,k] == psi(subspace_vector(k))", bool(torch.allclose(psi[:, k], one, rtol=1e-10, atol=1e-14 * float(psi.abs().max()))), c2)
         # explicit psi through rotate_psi_inner_prod: one-hot array picks position idx(state)
         for k in range(2 ** n):
             arr = torch.zeros(2, 2 ** n, dtype=torch.double); arr[0, k] = 1.0
@@ -111,7 +128,7 @@ def run(ctx):
                 one = dm.rho(sp[i], sp[j])
                 c2 = {"fn": "rho position", "n": n, "i": i, "j": j}
                 ctx.case(c2)
-                ctx.require("rho(space,space)[:,i,j] == rho(row i,row j)", bool(torch.allclose(rho[:, i, j], one.reshape(2), rtol=1e-12, atol=0)), c2)
+                ctx.require("rho(space,space)[:,i,j] == rho(row i,row j)", bool(torch.allclose(rho[:, i, j], one.reshape(2), rtol=1e-10, atol=1e-14 * float(rho.abs().max()))), c2)
     # ---- leftmost tensor factor = site 0: rotations of explicit arrays vs dense numpy Kronecker products
     from functools import reduce
     ud = U.create_dict()
@@ -151,7 +168,8 @@ def run(ctx):
     # ---- reference-basis extraction
     for t in range(40 if ctx.thorough else 12):
         N = int(rng.integers(1, 9)); n = int(rng.integers(1, 5))
-        bases = rng.choice(list("XYZ"), size=(N, n), p=[0.2, 0.2, 0.6])
+        alphabet = list("XYZ") if t % 3 else list("ZHSX")          # any basis alphabet: only "Z" is the reference letter
+        bases = rng.choice(alphabet, size=(N, n), p=[0.2, 0.2, 0.6] if len(alphabet) == 3 else [0.55, 0.15, 0.15, 0.15])
         if t % 4 == 0:
             bases[:] = "Z"
         if t % 4 == 1:
@@ -163,47 +181,81 @@ def run(ctx):
         if ok:
             keep = [i for i in range(N) if all(ch == "Z" for ch in bases[i])]
             ctx.require("refbasis rows are exactly the all-Z rows in order", z.shape[0] == len(keep) and bool(torch.equal(z, samples[keep])), c2)
-    # ---- data loaders (correspondence only; independent parser)
+    # ---- data loaders (differential test only: the loaders are not modelled).  Files written here, parsed back by the
+    #      library, compared with what was written; every subset of the optional arguments; N = 1 included.
     d = ctx.scratch
-    for t in range(20 if ctx.thorough else 6):
-        N = int(rng.integers(2, 8)); n = int(rng.integers(1, 4))
+    def same_rows(t, want, what, case):
+        arr = np.asarray(t.numpy() if hasattr(t, "numpy") else t)
+        want = np.asarray(want)
+        ok = arr.size == want.size and (arr.shape == want.shape or want.shape[0] == 1 or want.ndim == 1 or want.shape[-1] == 1)
+        ctx.require(what, bool(ok and (arr.reshape(want.shape) == want).all()), case, {"got_shape": list(arr.shape), "want_shape": list(want.shape)})
+    nfiles = 24 if ctx.thorough else 10
+    for t in range(nfiles):
+        N = 1 if t % 5 == 4 else int(rng.integers(2, 8))
+        n = int(rng.integers(1, 4))
         samp = rng.integers(0, 2, size=(N, n))
-        bases = rng.choice(list("XYZ"), size=(N, n))
+        alphabet = list("XYZ") if t % 2 else list("XYZH")
+        bases = rng.choice(alphabet, size=(N, n))
         psi = rng.normal(size=(2 ** n, 2))
-        allb = rng.choice(list("XYZ"), size=(3, n))
+        allb = rng.choice(alphabet, size=(int(rng.integers(1, 4)), n))
         f1, f2, f3, f4 = [os.path.join(d, "f%d_%d.txt" % (t, i)) for i in range(4)]
         np.savetxt(f1, samp, fmt="%d")
         np.savetxt(f2, psi, fmt="%.18e")
         np.savetxt(f3, bases, fmt="%s")
         np.savetxt(f4, np.array(["".join(r) for r in allb]), fmt="%s")
-        c2 = {"fn": "load_data", "N": N, "n": n}
-        ctx.case(c2, nontrivial=True)
-        ok, out = ctx.call("load_data", c2, load_data, f1, f2, f3, f4)
-        if ok:
-            ts, tp, tb, ab = out
-            ctx.require("samples as written", ts.dtype == torch.double and ts.numpy().reshape(N, n).astype(int).tolist() == samp.tolist(), c2)
-            want = psi.astype(np.float32).astype(np.float64)
-            ctx.require("target psi to single precision, [re; im] rows", tuple(tp.shape) == (2, 2 ** n) and bool((tp.numpy() == want.T).all()), c2)
-            ctx.require("bases as written", np.asarray(tb).reshape(N, n).tolist() == bases.tolist(), c2)
-            ctx.require("basis list as written", [str(x) for x in np.atleast_1d(ab)] == ["".join(r) for r in allb], c2)
+        for mask in range(8):                                   # which optional files are passed
+            use_psi, use_tb, use_ab = bool(mask & 1), bool(mask & 2), bool(mask & 4)
+            c2 = {"fn": "load_data", "N": N, "n": n, "psi": use_psi, "tr_bases": use_tb, "bases": use_ab}
+            ctx.case(c2, nontrivial=(N >= 2 and mask != 0))
+            ok, out = ctx.call("load_data", c2, load_data, f1, f2 if use_psi else None, f3 if use_tb else None, f4 if use_ab else None)
+            if not ok:
+                continue
+            ctx.require("load_data returns one item per given file, samples first", len(out) == 1 + use_psi + use_tb + use_ab, c2, len(out))
+            if len(out) != 1 + use_psi + use_tb + use_ab:
+                continue
+            it = iter(out)
+            ts = next(it)
+            same_rows(ts, samp.astype(float), "samples as written", c2)
+            if use_psi:
+                tp = next(it)
+                want = psi.astype(np.float32).astype(np.float64)
+                ctx.require("target psi to single precision, [re; im] rows", tuple(tp.shape) == (2, 2 ** n) and bool((tp.numpy() == want.T).all()), c2)
+            if use_tb:
+                tb = next(it)
+                got = np.asarray(tb)
+                ctx.require("bases as written", got.size == bases.size and got.reshape(bases.shape).tolist() == bases.tolist(), c2, got.tolist())
+            if use_ab:
+                ab = next(it)
+                ctx.require("basis list as written", [str(x) for x in np.atleast_1d(ab)] == ["".join(r) for r in allb], c2)
         mr = rng.normal(size=(2 ** n, 2 ** n)); mi = rng.normal(size=(2 ** n, 2 ** n))
         g1, g2 = os.path.join(d, "g%d_r.txt" % t), os.path.join(d, "g%d_i.txt" % t)
         np.savetxt(g1, mr, fmt="%.18e"); np.savetxt(g2, mi, fmt="%.18e")
-        c3 = {"fn": "load_data_DM", "N": N, "n": n}
-        ctx.case(c3)
-        ok, out = ctx.call("load_data_DM", c3, load_data_DM, f1, g1, g2, f3, f4)
-        if ok:
-            ts, tm, tb, ab = out
-            ctx.require("DM samples as written", ts.numpy().reshape(N, n).astype(int).tolist() == samp.tolist(), c3)
-            ctx.require("target matrix to single precision",
-                        bool((tm[0].numpy() == mr.astype(np.float32).astype(np.float64)).all() and (tm[1].numpy() == mi.astype(np.float32).astype(np.float64)).all()), c3)
-            ctx.require("DM bases as written", np.asarray(tb).reshape(N, n).tolist() == bases.tolist(), c3)
+        for mask in range(8):
+            use_m, use_tb, use_ab = bool(mask & 1), bool(mask & 2), bool(mask & 4)
+            c3 = {"fn": "load_data_DM", "N": N, "n": n, "matrix": use_m, "tr_bases": use_tb, "bases": use_ab}
+            ctx.case(c3, nontrivial=(N >= 2 and mask != 0))
+            ok, out = ctx.call("load_data_DM", c3, load_data_DM, f1, g1 if use_m else None, g2 if use_m else None, f3 if use_tb else None, f4 if use_ab else None)
+            if not ok or len(out) != 1 + use_m + use_tb + use_ab:
+                ctx.require("load_data_DM returns one item per given file", not ok or False, c3)
+                continue
+            it = iter(out)
+            same_rows(next(it), samp.astype(float), "DM samples as written", c3)
+            if use_m:
+                tm = next(it)
+                ctx.require("target matrix to single precision",
+                            tuple(tm.shape) == (2, 2 ** n, 2 ** n) and
+                            bool((tm[0].numpy().reshape(mr.shape) == mr.astype(np.float32).astype(np.float64)).all() and (tm[1].numpy().reshape(mi.shape) == mi.astype(np.float32).astype(np.float64)).all()), c3)
+            if use_tb:
+                got = np.asarray(next(it))
+                ctx.require("DM bases as written", got.size == bases.size and got.reshape(bases.shape).tolist() == bases.tolist(), c3)
+            if use_ab:
+                ctx.require("DM basis list as written", [str(x) for x in np.atleast_1d(next(it))] == ["".join(r) for r in allb], c3)
         try:
             load_data_DM(f1, tr_mtx_real_path=g1)
             rej = False
-        except ValueError:
+        except Exception:
             rej = True
-        ctx.require("real part without imaginary part is refused", rej, c3)
+        ctx.require("real part without imaginary part is refused", rej, {"fn": "load_data_DM", "only_real": True})
     ctx.traces = ctx.evaluations
 
 
